@@ -28,6 +28,7 @@ import Driver.TxGas
 import Driver.OpFees
 import Driver.AccessTx
 import Driver.AccessSets
+import Driver.InspectorWrap
 /-! Line-protocol driver: one request per line on stdin, one reply per line on stdout.
 Stateless components are dispatched on the first token. A stateful component `X` adds a field
 `x : Driver.X.St := Driver.X.St.init` to `DState`, resets it on `begin x …` and threads it through
@@ -104,6 +105,7 @@ def step (st : DState) (line : String) : DState × String :=
   | "acctx" :: r => (st, AccessTx.handle r)
   | "begin" :: "acc" :: r => let (s, out) := Driver.AccessSets.begin r; ({ st with acc := s }, out)
   | "a" :: r => let (s, out) := Driver.AccessSets.handle st.acc r; ({ st with acc := s }, out)
+  | "inspwrap" :: r => (st, InspectorWrap.handle r)
   | _ => (st, "bad-op")
 
 partial def loop (hin hout : IO.FS.Stream) (st : DState) : IO Unit := do
